@@ -191,47 +191,52 @@ const ERR_NAMES: [&str; 12] = [
 ];
 const _: () = assert!(ERR_NAMES.len() == ERR_KINDS.len());
 
+/// Compare the observation of another run (second call / other thread / other
+/// placement) of the same bytes with the first one; a difference refutes purity.
+#[allow(clippy::too_many_arguments)]
+fn compare_obs(ctx: &mut Ctx, first: &Obs, which: &str, other: Result<Obs, vf_core::PanicInfo>, font: &str, mutation: &str, bytes: &[u8], case: &Value) {
+    let k0 = first.key();
+    let sigs0 = first.panic_counts.clone();
+    let sites0 = first.panic_sites.clone();
+    let o = match other {
+        Ok(o) => o,
+        Err(p) => {
+            ctx.judge_panic(&p, which, case.clone(), Some(bytes));
+            return;
+        }
+    };
+    if o.key() == k0 {
+        return;
+    }
+    let sigs = o.panic_counts.clone();
+    if sigs != sigs0 || o.panic_sites != sites0 {
+        // the difference is a panic that depends on the call / thread /
+        // placement: the panic itself is the refuting event (one finding
+        // per panic site instead of one per input)
+        ctx.count("placement_or_call_dependent_panics", 1);
+        for (what, p) in &o.panics {
+            let sg = p.signature();
+            let moved = o.panic_sites.iter().filter(|(_, s)| *s == sg).ne(sites0.iter().filter(|(_, s)| *s == sg));
+            if sigs0.get(&sg) != sigs.get(&sg) || moved {
+                ctx.judge_panic(p, &format!("{} [only on {}]", what, which), case.clone(), Some(bytes));
+            }
+        }
+        return;
+    }
+    let sig = format!("nondeterministic:{}:{}:{}", which, font, mutation);
+    ctx.violation(
+        &sig,
+        json!({"what": "observation digest differs for identical bytes", "which": which,
+               "first": format!("{:?}", k0), "other": format!("{:?}", o.key()), "case": case}),
+        Some(bytes),
+    );
+}
+
 /// The purity clause: same bytes => same observations on a second call, on
 /// another thread, and at another address / alignment with other neighbours.
 fn determinism(ctx: &mut Ctx, first: &Obs, font: &str, mutation: &str, bytes: &[u8], spec: &Spec, case: &Value) {
     ctx.count("determinism_checks", 1);
-    let k0 = first.key();
-    let sigs0 = first.panic_counts.clone();
-    let sites0 = first.panic_sites.clone();
-    let mut compare = |ctx: &mut Ctx, which: &str, other: Result<Obs, vf_core::PanicInfo>| {
-        let o = match other {
-            Ok(o) => o,
-            Err(p) => {
-                ctx.judge_panic(&p, which, case.clone(), Some(bytes));
-                return;
-            }
-        };
-        if o.key() == k0 {
-            return;
-        }
-        let sigs = o.panic_counts.clone();
-        if sigs != sigs0 || o.panic_sites != sites0 {
-            // the difference is a panic that depends on the call / thread /
-            // placement: the panic itself is the refuting event (one finding
-            // per panic site instead of one per input)
-            ctx.count("placement_or_call_dependent_panics", 1);
-            for (what, p) in &o.panics {
-                let sg = p.signature();
-                let moved = o.panic_sites.iter().filter(|(_, s)| *s == sg).ne(sites0.iter().filter(|(_, s)| *s == sg));
-                if sigs0.get(&sg) != sigs.get(&sg) || moved {
-                    ctx.judge_panic(p, &format!("{} [only on {}]", what, which), case.clone(), Some(bytes));
-                }
-            }
-            return;
-        }
-        let sig = format!("nondeterministic:{}:{}:{}", which, font, mutation);
-        ctx.violation(
-            &sig,
-            json!({"what": "observation digest differs for identical bytes", "which": which,
-                   "first": format!("{:?}", k0), "other": format!("{:?}", o.key()), "case": case}),
-            Some(bytes),
-        );
-    };
+    let mut compare = |ctx: &mut Ctx, which: &str, other: Result<Obs, vf_core::PanicInfo>| compare_obs(ctx, first, which, other, font, mutation, bytes, case);
     // (a) second call
     compare(ctx, "second-call", vf_core::guard(|| spec.run(bytes)));
     // (b) another thread
@@ -309,7 +314,141 @@ fn mutant_cfg(len: usize, tag: Option<[u8; 4]>) -> WalkCfg {
     }
 }
 
-pub fn workload(ctx: &mut Ctx, _args: &Args) {
+/// The slice run under Miri (extra stage "miri" of stages.json). read-fonts itself
+/// forbids `unsafe`; what it relies on are the `bytemuck` casts behind
+/// `FontData::read_ref_at` / `read_array` / `cast_slice` and font-types' marker impls
+/// (`unsafe impl AnyBitPattern for BigEndian<T>`). Every input (a few tiny corpus fonts,
+/// pristine + truncations + directory / boundary / random edits) is walked by the generic
+/// walker and all helpers from four buffers whose start sits at misalignment 0..3 with
+/// different neighbouring bytes; the four observation digests must agree. What Miri adds
+/// (with -Zmiri-symbolic-alignment-check): a cast that assumes more alignment than a byte
+/// buffer promises, an out-of-bounds or uninitialised read, is reported even when the
+/// values happen to come out right on this machine.
+fn miri_slice(ctx: &mut Ctx, _args: &Args) {
+    ctx.assumptions.push("Miri slice: single-threaded interpretation; the second-call / other-thread comparisons are left to the native profiles, the relocated-copy comparison is made at start misalignments 0..3".into());
+    let dir = format!("{}/font-test-data/test_data/ttf", vf_core::repo_dir());
+    let thorough = ctx.tier.is_thorough();
+    // One walk (generic walker + all helpers) of a 150..450-byte font costs 2..5 s of Miri time.
+    let names: &[&str] = if thorough { &["cmap4_symbol_pua.ttf", "simple_glyf.ttf", "cmap12_font1.ttf"] } else { &["cmap4_symbol_pua.ttf", "simple_glyf.ttf"] };
+    let n_random = if thorough { 3 } else { 1 };
+    let seed = ctx.seed;
+    let mut fonts_read = 0;
+    // debugging knobs: VF_MIRI_ONLY=<font name substring>, VF_MIRI_MAX_INPUTS=<n per font>
+    let only = std::env::var("VF_MIRI_ONLY").unwrap_or_default();
+    let max_inputs: usize = std::env::var("VF_MIRI_MAX_INPUTS").ok().and_then(|s| s.parse().ok()).unwrap_or(usize::MAX);
+    for (fi, name) in names.iter().enumerate() {
+        if !name.contains(only.as_str()) {
+            continue;
+        }
+        let data = match std::fs::read(format!("{}/{}", dir, name)) {
+            Ok(d) => d,
+            Err(e) => {
+                ctx.inconclusive(format!("cannot read {}: {}", name, e));
+                continue;
+            }
+        };
+        fonts_read += 1;
+        let id = format!("{}#{:016x}", name, fnv64(&data));
+        let dir_recs = dir_of(&data);
+        let len = data.len();
+        // (kind, mutation description, bytes)
+        let mut inputs: Vec<(&'static str, String, Vec<u8>)> = vec![("inputs:miri-pristine", "pristine".into(), data.clone())];
+        // truncations: one byte short, inside the last table, inside the directory, a bare header
+        let mut cuts = vec![];
+        if let Some(last) = dir_recs.iter().max_by_key(|r| r.offset) {
+            cuts.push(((last.offset as usize).min(len) + len) / 2);
+        }
+        if thorough {
+            cuts.extend_from_slice(&[len - 1, 12 + 16 * dir_recs.len() - 3, 12, len / 2]);
+        }
+        cuts.sort_unstable();
+        cuts.dedup();
+        for c in cuts {
+            inputs.push(("inputs:miri-truncate-file", format!("truncate-file@{}", c), data[..c.min(len)].to_vec()));
+        }
+        // directory edits: table lengths and offsets at boundary values
+        for (ti, rec) in dir_recs.iter().enumerate() {
+            if ti >= if thorough { 2 } else { 1 } {
+                break;
+            }
+            let fl = len as u32;
+            let edits: Vec<(String, usize, u32)> = vec![
+                (format!("dir-length:{}={:#x}", rec.tag_str(), rec.len.wrapping_sub(1)), rec.rec_pos + 12, rec.len.wrapping_sub(1)),
+                (format!("dir-length:{}={:#x}", rec.tag_str(), fl.wrapping_sub(rec.offset).wrapping_add(1)), rec.rec_pos + 12, fl.wrapping_sub(rec.offset).wrapping_add(1)),
+                (format!("dir-offset:{}={:#x}", rec.tag_str(), rec.offset.wrapping_add(1)), rec.rec_pos + 8, rec.offset.wrapping_add(1)),
+                (format!("dir-offset:{}={:#x}", rec.tag_str(), 0xFFFF_FFFFu32), rec.rec_pos + 8, 0xFFFF_FFFF),
+            ];
+            for (k, (desc, pos, v)) in edits.into_iter().enumerate() {
+                if !thorough && k != fi % 4 {
+                    continue;
+                }
+                let mut buf = data.clone();
+                let mut patch = Patcher::new();
+                patch.set32(&mut buf, pos, v);
+                inputs.push(("inputs:miri-directory-edit", desc, buf));
+            }
+        }
+        // boundary values inside the tables + random structure-aware mutants
+        for it in 0..n_random {
+            let mut rng = Rng::derive(seed, "c01-miri-mutant", (fi as u64) << 32 | it as u64);
+            let mut buf = data.clone();
+            let mut patch = Patcher::new();
+            let focus = (!dir_recs.is_empty()).then(|| dir_recs[rng.usize(dir_recs.len())].tag);
+            let kinds = gen::mutate_random(&mut buf, &dir_recs, &mut rng, &mut patch, focus.as_ref());
+            for k in &kinds {
+                ctx.count(&format!("mutation_kind:{}", k), 1);
+            }
+            inputs.push(("inputs:miri-random-mutant", format!("random#{}:{}", it, patch.describe()), buf));
+        }
+        for (case_no, (kind, mutation, bytes)) in inputs.into_iter().take(max_inputs).enumerate() {
+            let t0 = ctx.elapsed_s();
+            // the boundary-sample effort for every input: the full effort (every glyph / code point) is the native profiles' job
+            let spec = Spec::File(WalkCfg::mutant(20_000, None));
+            let case = json!({"kind": kind, "font": id, "mutation": mutation, "spec": spec.to_json()});
+            ctx.eval();
+            ctx.count(kind, 1);
+            // no `run_case`: its cpu-time bound is calibrated for native execution
+            let (owner, range) = gen::relocate(&bytes, 0, 0xA5);
+            let placed = &owner[range];
+            let first = match vf_core::guard(|| spec.run(placed)) {
+                Ok(o) => o,
+                Err(p) => {
+                    ctx.judge_panic(&p, "walk (unguarded section)", case, Some(&bytes));
+                    continue;
+                }
+            };
+            for (what, p) in &first.panics {
+                ctx.judge_panic(p, what, case.clone(), Some(&bytes));
+            }
+            record(ctx, &first, kind, nt(&id, "miri", &mutation));
+            if first.fields >= NONTRIVIAL_FIELDS && first.tables_ok > 0 {
+                ctx.sample_by_kind(kind, json!({"font": id, "mutation": mutation, "fields": first.fields, "tables_ok": first.tables_ok, "helper_calls": first.helper_calls, "digest": format!("{:016x}", first.d.finish()), "placements": "misalignments 0..3 (mutants in the quick tier: 0 and one of 1..3)"}));
+            }
+            ctx.count("determinism_checks", 1);
+            for (mis, pad) in [(1usize, 0x00u8), (2, 0xFF), (3, 0x5A)] {
+                // pristine inputs at every misalignment 0..3; mutants at 0 and one of 1..3 (all four in thorough)
+                if !thorough && mutation != "pristine" && mis != 1 + case_no % 3 {
+                    continue;
+                }
+                let (owner, range) = gen::relocate(&bytes, mis, pad);
+                let moved = &owner[range];
+                compare_obs(ctx, &first, &format!("relocated-misaligned-{}", mis), vf_core::guard(|| spec.run(moved)), &id, &mutation, &bytes, &case);
+                ctx.count("placement_comparisons", 1);
+            }
+            let dt = ctx.elapsed_s() - t0;
+            if std::env::var("VF_TIMING").is_ok() {
+                eprintln!("c01 miri timing: {:<22} {:<40} {:7.2}s fields={} helpers={}", name, mutation.chars().take(40).collect::<String>(), dt, first.fields, first.helper_calls);
+            }
+            ctx.count(&format!("wall_ms:miri:{}", name), (dt * 1000.0) as u64);
+        }
+    }
+    ctx.extra.insert("miri_fonts".into(), json!(names));
+    if fonts_read == 0 {
+        ctx.inconclusive("no font of the Miri slice could be read");
+    }
+}
+
+pub fn workload(ctx: &mut Ctx, args: &Args) {
     ctx.rule = rule_text();
     ctx.assumptions = vec![
         "64-bit target (usize arithmetic on u32 font values cannot overflow); 32-bit behaviour is not observed".into(),
@@ -317,6 +456,9 @@ pub fn workload(ctx: &mut Ctx, _args: &Args) {
         "lazily unbounded iterators (Cmap12::iter without limits, CollectionRef::iter with numFonts = 2^32-1) are consumed through take(N)".into(),
         "stack overflow / abort are attributed by the driver through trace mode, not by this crate".into(),
     ];
+    if cfg!(miri) || args.profile == "miri" {
+        return miri_slice(ctx, args);
+    }
     let fonts = vf_core::corpus_fonts();
     if fonts.is_empty() {
         ctx.inconclusive("no corpus fonts found");
